@@ -299,6 +299,15 @@ int main(int argc, char **argv)
 			c = jwt_checker_new();
 			if (jwt_checker_setkey(c, (jwt_alg_t)cb.alg, PUB[vprov][cb.k])) vh_harness_fail("checker setkey");
 			jwt_checker_setcb(c, dump_cb, NULL);
+			if ((idx & 3) == 1) {
+				/* a quarter of the round trips: the checker has just refused something else (a spoiled copy of the token, or text that
+				 * is no token) and the application did not clear the error: the generated token verifies all the same */
+				char *sp = strdup(tok);
+				size_t sl_ = strlen(sp);
+				if (idx & 4) sp[sl_ / 2] = sp[sl_ / 2] == 'A' ? 'B' : 'A'; else { free(sp); sp = strdup("not.a.token"); }
+				(void)jwt_checker_verify(c, sp);
+				free(sp); free(cb_h); free(cb_c); cb_h = cb_c = NULL;
+			}
 			vrc = jwt_checker_verify(c, tok);
 			if (vrc) snprintf(vmsg, sizeof(vmsg), "%.70s", jwt_checker_error_msg(c));
 			jwt_checker_free(c);
